@@ -11,6 +11,18 @@ use serde_json::Value;
 
 pub const PAST_NBF: &str = "2000-01-01T00:00:00Z";
 
+/// the message carried by a builder-layer payload (see `layer_build`)
+pub fn message_of(v: &Value) -> Option<String> {
+  match v.get("data") {
+    Some(Value::Object(o)) => match (o.get("data").and_then(|d| d.as_str()), o.get("note").and_then(|n| n.as_u64())) {
+      (Some(s), Some(n)) if o.len() == 2 && s.len() % 6 == 4 && n == s.len() as u64 => Some(s.to_string()),
+      _ => None,
+    },
+    Some(Value::String(s)) if s.len() % 6 != 4 => Some(s.clone()),
+    _ => None,
+  }
+}
+
 pub enum LayerOut {
   Text(String),
   Json(Value),
@@ -20,7 +32,9 @@ impl LayerOut {
   pub fn message(&self) -> Option<String> {
     match self {
       LayerOut::Text(s) => Some(s.clone()),
-      LayerOut::Json(v) => v.get("data").and_then(|d| d.as_str()).map(|s| s.to_string()),
+      // (a message whose length is 4 mod 6 travels inside a caller-defined claim type with two members, {"data": .., "note":
+      // length}, and has to come back in exactly that shape; every other message is a plain string claim)
+      LayerOut::Json(v) => message_of(v),
     }
   }
 }
@@ -32,7 +46,8 @@ pub fn layer_build(proto: Proto, layer: Layer, keys: &LibKeys, nonce: &[u8], msg
   match layer {
     Layer::Core => core_build(keys, nonce, msg, footer, assertion),
     l => {
-      let data = ClaimSpec::Custom("data".into(), Value::String(msg.to_string()));
+      // every sixth message travels in a caller-defined claim type that serialises to an object with two members
+      let data = if msg.len() % 6 == 4 { ClaimSpec::Shaped("data".into(), serde_json::json!({ "data": msg, "note": msg.len() })) } else { ClaimSpec::Custom("data".into(), Value::String(msg.to_string())) };
       let nbf = ClaimSpec::Nbf(PAST_NBF.into());
       let mut b = new_builder(proto, l);
       let claims_last = msg.len() % 3 == 1; // the claims go in before or after footer and assertion
